@@ -474,7 +474,7 @@ func checkHookRecords(r *Run, u *UISession, tn *Town) {
 		}
 	}
 	// links that hostile bodies add (image and frame sources)
-	for _, extra := range []string{"https://media.example/i", "https://media.example/f"} {
+	for _, extra := range []string{"https://media.example/i", "https://media.example/f", "https://media.example/u"} {
 		cands = append(cands, cand{extra, "*/*"})
 	}
 	hasURL := false
